@@ -217,6 +217,9 @@ RES = {
     'bytes_int': [('bytes', b'CRC', 0x02, 'int', 7), ('bytes', b'q\x00\x01', 0x02, 'int', 0)],
     'flagbits': [('bytes', b'fl1', 0x82, 'int', 0xFFFFFFFF), ('bytes', b'fl2', 0xFD, 'bytes', b'\x01')],
     'empty': [('bytes', b'emp', 0x00, 'bytes', b'')],
+    # bit 0x02 contradicts the value type: the format forces it (set for inline values, clear for data blocks);
+    # everything else must survive.  A ValueError from save() is accepted as a refusal.
+    'inconsistent': [('bytes', b'in1', 0x00, 'int', 0x60), ('bytes', b'in2', 0x42, 'bytes', b'blk')],
     'order': [('bytes', b'zzz', 0x00, 'bytes', b'last-first'), ('enum', 'LOD_SETTINGS', 0x02, 'int', 0x0201),
               ('bytes', b'\x02aa', 0x00, 'bytes', b'x' * 300), ('enum', 'EXTRA_FLAGS', 0x02, 'int', 1)],
 }
@@ -248,7 +251,15 @@ ALTS_QUICK = {
     'ref': [1, 2, 3], 'bump': [1, 2, 3], 'first': [1, 65535], 'savever': [2, 3, 4, 5], 'regen': [0, 1],
 }
 ALTS_THOROUGH = dict(ALTS_QUICK, frames=[2, 3], depth=[2, 3], pix=[1, 2, 'special'])
-# reduced menu (one or two boundary values per dimension) explored one deviation level deeper
+# medium menu, explored one deviation level deeper than the full menu (thorough tier)
+ALTS_MID = {
+    'w': [1, 2, 8, 32], 'h': [1, 2, 8, 32], 'frames': [2], 'depth': [2], 'cube': [1], 'ver': [2, 3, 4],
+    'fmt': ['BGRA5551', 'RGB565', 'I8', 'BGR888_BLUESCREEN', 'BGRA4444', 'A8'], 'thumb': ['RGB888', 'BGRA4444', 'BGR565'],
+    'res': ['int', 'both', 'order', 'flagbits'], 'sheet': ['one', 'two_tf', 'noframes'], 'sheetver': [0],
+    'flag': [0, 15, 31], 'mips': ['explicit'], 'pix': ['special'], 'ref': [3], 'bump': [3], 'first': [65535],
+    'savever': [2, 3, 4], 'regen': [0, 1],
+}
+# reduced menu (one or two boundary values per dimension) explored two deviation levels deeper
 ALTS_DEEP = {
     'w': [1, 2, 8], 'h': [1, 2, 8], 'frames': [2], 'depth': [2], 'cube': [1], 'ver': [2, 4],
     'fmt': ['BGRA5551', 'RGB565', 'I8', 'BGR888_BLUESCREEN'], 'thumb': ['RGB888', 'BGRA4444'],
@@ -322,10 +333,13 @@ def frame_bytes(frame: Frame) -> bytes:
     return memoryview(frame).tobytes()
 
 
-def norm_resources(res: dict) -> dict:
+def norm_resources(res: dict, force_bit: bool = False) -> dict:
     out = {}
     for k, v in res.items():
-        out[bytes(k).hex()] = (v.flags, type(v.data).__name__, v.data if isinstance(v.data, int) else bytes(v.data).hex())
+        flags = v.flags
+        if force_bit:
+            flags = (flags | 0x02) if isinstance(v.data, int) else (flags & ~0x02)
+        out[bytes(k).hex()] = (flags, type(v.data).__name__, v.data if isinstance(v.data, int) else bytes(v.data).hex())
     return out
 
 
@@ -573,7 +587,7 @@ def check_case(acc: core.Acc, dev: dict) -> None:
         vtf.save(buf, **save_kw)
     except Exception as exc:  # noqa: BLE001
         unrepresentable = out_minor < 3 and (cfg['res'] != 'none' or cfg['sheet'] != 'none')
-        if isinstance(exc, ValueError) and ((cfg['savever'] and cube) or unrepresentable):
+        if isinstance(exc, ValueError) and ((cfg['savever'] and cube) or unrepresentable or cfg['res'] == 'inconsistent'):
             # an explicit refusal of something the target version cannot hold is not a round-trip failure
             acc.outcome(('save_refused', cube, minor, out_minor))
             return
@@ -639,7 +653,7 @@ def check_case(acc: core.Acc, dev: dict) -> None:
         'flags': flagval, 'format': fmt, 'low_format': thumb, 'version': (7, out_minor),
         'reflectivity': tuple(f32(x) for x in REFS[cfg['ref']]), 'bumpmap_scale': f32(BUMPS[cfg['bump']]),
         'mipmap_count': vtf.mipmap_count,
-        'resources': norm_resources(vtf.resources) if representable else {},
+        'resources': norm_resources(vtf.resources, force_bit=True) if representable else {},
         'sheet_info': {},
     }
     if representable:
@@ -830,6 +844,9 @@ def enumerate_cases(quick: bool) -> tuple[list, dict]:
         add(dev, 'deviation')
     for dev in deviations(ALTS_DEEP, 4 if quick else 5):
         add(dev, 'deviation_deep')
+    if not quick:
+        for dev in deviations(ALTS_MID, 4):
+            add(dev, 'deviation_mid')
     # structural product
     layouts = [{'depth': 1}, {'depth': 2}, {'cube': 1}]
     if quick:
@@ -890,13 +907,15 @@ def run(ctx: core.Ctx) -> None:
         f'sheet version 0/1; each of the 31 non-ENVMAP flag bits; mips generated/explicit; pixel phase; reflectivity; bump scale; '
         f'first frame; save(version=) override; clear_mipmaps(after)+compute_mipmaps on the re-read file).  Enumerated: every record deviating from the base '
         f'(4x4, 1 frame, RGBA8888, no thumbnail, 7.5) in <= {d} dimensions, each to every alternative value, and in <= {d + 2} dimensions '
-        f'over a reduced menu of boundary values ({sum(len(v) for v in ALTS_DEEP.values())} values in {len(ALTS_DEEP)} dimensions); the full product '
+        f'over a reduced menu of boundary values ({sum(len(v) for v in ALTS_DEEP.values())} values in {len(ALTS_DEEP)} dimensions)'
+        + ('' if ctx.quick else f', and in <= 4 dimensions over a medium menu ({sum(len(v) for v in ALTS_MID.values())} values in {len(ALTS_MID)} dimensions)') +
+        f'; the full product '
         f'w x h x layout(flat, depth 2, cubemap) x version x frames(1,2) x formats({4 if ctx.quick else len(WRITABLE)}) x mip modes(2); '
         f'a codec sweep (every writable format as main image on 16x16{"" if ctx.quick else ", 32x32, 32x8"} and as 16x16 thumbnail x '
         f'{8 if ctx.quick else NPHASE} pixel phases + special pixels; 256 consecutive pattern pixels carry every byte value in every channel, all pixels distinct).  '
         f'Each distinct record is executed once (families are merged and de-duplicated).  Non-trivial = the file was saved, read back and at least one frame '
         f'was compared pixel by pixel.  Representability rules: resources/sheets expected empty when written as 7.2 (no resource table); '
-        f'resource flag bit 0x02 generated consistently with the value type; sheet version 0 keeps one coordinate set per frame; '
+        f'resource flag bit 0x02 is forced by the format to match the value type (inline integer / data block), all other bits must survive; sheet version 0 keeps one coordinate set per frame; '
         f'floats compared with their float32 image; cubemap with depth 2 must be rejected with ValueError; thumbnail pixels are set through the private '
         f'_low_res frame (no public accessor) unless a 32x32 level regenerates them.')
     ctx.assumptions.append('DXT/ATI formats cannot be written by the pure-Python codecs and are not exercised (save -> read property only)')
